@@ -23,6 +23,7 @@ import BufrModel.Drv.StreamOp
 import BufrModel.Drv.WidthsOp
 import BufrModel.Drv.QueryOp
 import BufrModel.Drv.TextOp
+import BufrModel.Drv.HistoryOp
 open Lean Bufr.Drv
 
 /-- stateless operations: one line per op -/
@@ -42,6 +43,7 @@ def statelessOps : List (String × (Json → J Json)) :=
   ("cache", opCache) ::
   ("links-spec", opLinksSpec) ::
   ("pyslice", opPySlice) ::
+  ("parser-history", opParserHistory) ::
   []
 
 /-- operations that read or change the driver state -/
